@@ -300,7 +300,75 @@ func VsymC16List() {
 	}
 }
 
+// c16FileExec: running an executable file prints the metadata its content holds (both modes).
+type c16FileExec struct{ runs []string }
+
+func (c *c16FileExec) Output(ctx context.Context, path string, command plugin.Command, req []byte) ([]byte, []byte, error) {
+	fskit.Quiet()
+	defer fskit.Loud()
+	c.runs = append(c.runs, path)
+	fi, err := os.Stat(path)
+	if err != nil {
+		return nil, nil, err
+	}
+	if !fi.Mode().IsRegular() || fi.Mode().Perm()&0o100 == 0 {
+		return nil, nil, errors.New("permission denied")
+	}
+	b, err := os.ReadFile(path)
+	return b, nil, err
+}
+
+// VsymC16Install: installation sources whose file name yields a plugin name that is not a single path
+// element - as the executable itself or as the only candidate of a directory, executable or not.
+func VsymC16Install() {
+	base := fskit.Root()
+	defer fskit.Cleanup()
+	depth := vr.Choice("rootDepth", 2)
+	root := base + "/top/plugins"
+	if depth == 1 {
+		root = base + "/top/a/plugins"
+	}
+	c16Must(os.MkdirAll(root+"/good", 0o755))
+	c16Must(os.WriteFile(root+"/good/notation-good", []byte("g"), 0o755))
+	c16Must(os.WriteFile(base+"/top/keep.txt", []byte("keep"), 0o644))
+	c16Must(os.WriteFile(base+"/top/LICENSE", []byte("outside"), 0o644))
+	cand := []string{"notation-..", "notation-.", "notation-", "notation-ok"}[vr.Choice("candidate", 4)]
+	name := strings.TrimPrefix(cand, "notation-")
+	src := base + "/src"
+	c16Must(os.MkdirAll(src, 0o755))
+	mode := os.FileMode(0o644)
+	if vr.Choice("candidateExecutable", 2) == 1 {
+		mode = 0o755
+	}
+	meta := `{"name":"` + name + `","description":"d","version":"1.0.0","url":"u","supportedContractVersions":["1.0"],"capabilities":["SIGNATURE_GENERATOR.RAW"]}`
+	c16Must(os.WriteFile(src+"/"+cand, []byte(meta), mode))
+	c16Must(os.WriteFile(src+"/LICENSE", []byte("L"), 0o644))
+	ex := &c16FileExec{}
+	saved := executor
+	executor = ex
+	defer func() { executor = saved }()
+	mgr := NewCLIManager(dir.NewSysFS(root))
+	before := fskit.Tree(base + "/top")
+	path := src
+	if vr.Choice("sourceIsFile", 2) == 1 {
+		path = src + "/" + cand
+	}
+	_, _, err := mgr.Install(context.Background(), CLIInstallOptions{PluginPath: path, Overwrite: vr.Choice("overwrite", 2) == 1})
+	if !c16SingleElement(name) {
+		vr.Assert(err != nil, "a source whose file name yields a name that is not a single path element is refused")
+		vr.Assert(fskit.SameTree(before, fskit.Tree(base+"/top")), "... and nothing at or around the plugin root changes")
+		vr.Reach("install refused by name")
+		return
+	}
+	if err == nil {
+		_, serr := os.Stat(root + "/" + name + "/" + cand)
+		vr.Assert(serr == nil, "a well-named plugin is installed into <plugin root>/<name>")
+		vr.Reach("installed")
+	}
+}
+
 func init() {
+	vsymHarnesses["VsymC16Install"] = VsymC16Install
 	vsymHarnesses["VsymC16Name"] = VsymC16Name
 	vsymHarnesses["VsymC16List"] = VsymC16List
 }
